@@ -345,6 +345,21 @@ fn eval_multi_objective_strategy(
     })
 }
 
+/// Verification hook: the composition the reader uses for a `multi-objective` layer (plain or weighted sum).
+#[cfg(reinterpretcat_vrp_verif)]
+pub fn verif_eval_multi_objective_strategy(
+    objectives: &[Arc<dyn FeatureObjective>],
+    weights: Option<Vec<Float>>,
+    builder: GoalBuilder,
+) -> GenericResult<GoalBuilder> {
+    let strategy = match weights {
+        Some(weights) => MultiStrategy::WeightedSum { weights },
+        None => MultiStrategy::Sum,
+    };
+
+    eval_multi_objective_strategy(objectives, &strategy, builder)
+}
+
 fn get_capacity_feature(
     name: &str,
     api_problem: &ApiProblem,
